@@ -351,7 +351,7 @@ def _child(mode, hashseed, exprs, workdir, stubdir, shuffle_seed):
         env["PYTHONPATH"] = stubdir + (os.pathsep + env["PYTHONPATH"] if env.get("PYTHONPATH") else "")
     try:
         p = subprocess.run([sys.executable, "-c", CHILD, mode, workdir, _srcdir(), str(shuffle_seed)], input=json.dumps(exprs), env=env, cwd=workdir,
-                           capture_output=True, text=True, timeout=240)
+                           capture_output=True, text=True, timeout=600)
         if p.returncode != 0:
             return dict(error=f"child exit {p.returncode}\n{p.stderr[-3000:]}")
         return json.loads(p.stdout)
